@@ -326,8 +326,18 @@ def run_one(sc):
             cf = {"recarr": p.get("recarr", 1), "abs": p.get("abs", 1), "recwait": p.get("recwait", 1),
                   "byflow": p.get("byflow", 1)}
             sink_cfg[k] = cf
-            el[k] = PacketSink(env, rec_arrivals=bool(cf["recarr"]), absolute_arrivals=bool(cf["abs"]),
-                               rec_waits=bool(cf["recwait"]), rec_flow_ids=bool(cf["byflow"]), debug=dbg)
+            if p.get("tcp"):
+                from onl.packet import TCPSink
+
+                class Ignore:
+                    def put(self, pkt):
+                        pass
+                el[k] = TCPSink(env, rec_arrivals=bool(cf["recarr"]), absolute_arrivals=bool(cf["abs"]),
+                                rec_waits=bool(cf["recwait"]), rec_flow_ids=bool(cf["byflow"]), debug=dbg)
+                el[k].out = Ignore()
+            else:
+                el[k] = PacketSink(env, rec_arrivals=bool(cf["recarr"]), absolute_arrivals=bool(cf["abs"]),
+                                   rec_waits=bool(cf["recwait"]), rec_flow_ids=bool(cf["byflow"]), debug=dbg)
             sink_ev[k] = []
         else:
             raise SystemExit("unknown node class %r" % c)
